@@ -80,9 +80,17 @@ class GhostNet:
         return iter(list(self.params))
 
 
+DEVICE = "meta"       # the ghost state's device: a valid torch device name that is not the default one
+
+
 class GhostTensor:
     def __init__(self, w, rows, tag, base=None):
         self.w, self.rows, self.tag, self.base = w, rows, tag, base
+
+    @property
+    def device(self):
+        import torch
+        return torch.device(getattr(self, "kw", {}).get("device") or "cpu")
 
     @property
     def shape(self):
@@ -121,7 +129,7 @@ class GhostSelf:
 
     def __init__(self, w):
         object.__setattr__(self, "w", w)
-        object.__setattr__(self, "device", "DEVICE")
+        object.__setattr__(self, "device", DEVICE)
 
     @property
     def stop_training(self):
@@ -374,18 +382,24 @@ def make_sandbox(vc, w, fit_fn, cls):
         return {}
     specs = {0: A.LoopSpec(inv_epochs, None, havoc_epochs, "epoch loop"), 1: A.LoopSpec(inv_batches, None, havoc_batches, "batch loop")}
 
-    class TorchProxy:
+    class _TorchProxy:
         Tensor = torch.Tensor
         double = torch.double
         optim = torch.optim
 
+        def __getattr__(self, n):          # anything else is the real torch (torch.device, dtypes, ...)
+            return getattr(torch, n)
+
         @staticmethod
         def tensor(data, device=None, dtype=None):
-            w.check("C07", "fit/non-tensor data is copied into a new double tensor on the state's device", device == "DEVICE" and dtype is torch.double)
+            w.check("C07", "fit/non-tensor data is copied into a new double tensor on the state's device", device == DEVICE and dtype is torch.double)
             t = GhostTensor(w, data.rows, "tensor-of-data", base=data)
+            t.kw = {"device": device, "dtype": dtype}
             w.check("C07", "fit/torch.tensor is applied to the caller's data", data is w.data_obj)
             w.train_obj = t
             return t
+
+    TorchProxy = _TorchProxy()
 
     def vector_to_grads(vec, params):
         plist = list(params)
@@ -445,8 +459,9 @@ def run_fit(vc, w, f, user_callbacks=("CB1",), time=False, me=None, bases_obj=No
 
                 def to(*a, **k):
                     w.check("C07", "fit/tensor data is cloned, detached and converted to double on the state's device",
-                            k.get("device") == "DEVICE" and k.get("dtype") is torch.double)
+                            k.get("device") == DEVICE and k.get("dtype") is torch.double)
                     t = GhostTensor(w, w.N, "train", base=data)
+                    t.kw = k
                     w.train_obj = t
                     return t
                 d.to = to
